@@ -92,8 +92,21 @@ Fixed == {
 OpCases == {[kind |-> "op", op |-> o, l |-> l, r |-> r, ctx |-> c] :
               o \in {"-", "+", "&&", "<"}, l \in Types \ {"int?", "str?"}, r \in Types \ {"int?", "str?"}, c \in {"module", "fn"}}
 
+(* two modules each declare a class of the same name: a value of one is not a value of the other *)
+XLib == <<"export class Pt {", "	name: str", "	constructor(self, name: str) {", "		self.name = name", "	}", "}",
+          "export mkpt: fn() -> Pt = fn() -> Pt { return Pt(\"o\") }">>
+XSites == {"arg", "init", "reassign", "ret", "field"}
+XLines(site, bad) ==
+    LET v == IF bad THEN "lib.mkpt()" ELSE "Pt(2)" IN
+    CASE site = "arg" -> <<"taker = fn(p: Pt) -> int { return p.q }", "flt = taker(" \o v \o ")" \o (IF bad THEN M ELSE "")>>
+      [] site = "init" -> <<"flt: Pt = " \o v \o (IF bad THEN M ELSE "")>>
+      [] site = "reassign" -> <<"re = Pt(1)", "re = " \o v \o (IF bad THEN M ELSE "")>>
+      [] site = "ret" -> <<"flt = fn() -> Pt { return " \o v \o " }" \o (IF bad THEN M ELSE "")>>
+      [] site = "field" -> <<"class Holder {", "	p: Pt", "	constructor(self) {", "		self.p = Pt(1)", "	}", "}", "hd = Holder()", "hd.p = " \o v \o (IF bad THEN M ELSE "")>>
+
 VARIABLE x
 Init == x \in {y \in TypedCases : TypedValid(y)}
+           \cup {[kind |-> "xmod", site |-> st, ctx |-> c] : st \in XSites, c \in {"module", "fn"}}
            \cup {[kind |-> "fixed", f |-> f, ctx |-> c] : f \in Fixed, c \in Contexts}
            \cup {y \in OpCases : OpUnsupported(y.op, y.l, y.r)}
 Next == UNCHANGED x
@@ -112,14 +125,18 @@ Wrap(ctx, ls) ==
 Lines(bad) ==
     CASE x.kind = "typed" -> SiteLines(x.site, x.T, Sample(IF bad THEN x.S ELSE x.T))
       [] x.kind = "fixed" -> IF bad THEN x.f.bad ELSE x.f.good
+      [] x.kind = "xmod" -> XLines(x.site, bad)
       [] x.kind = "op" -> IF bad THEN <<"flt = " \o Sample(x.l) \o " " \o x.op \o " " \o Sample(x.r) \o M>>
                           ELSE <<"flt = 1 " \o (IF x.op = "&&" THEN "<" ELSE x.op) \o " 2">>
 Files(bad) ==
     IF x.ctx = "lib"
     THEN [main |-> <<"print \"START\"", "import lib", "print \"END\"">>, lib |-> Prologue \o Wrap("lib", Lines(bad))]
+    ELSE IF x.kind = "xmod"
+    THEN [main |-> <<"print \"START\"", "import lib">> \o Prologue \o Wrap(x.ctx, Lines(bad)) \o <<"print \"END\"">>, lib |-> XLib]
     ELSE [main |-> <<"print \"START\"">> \o Prologue \o Wrap(x.ctx, Lines(bad)) \o <<"print \"END\"">>, lib |-> <<>>]
 Id == CASE x.kind = "typed" -> x.site \o ":" \o x.T \o "<-" \o x.S \o "@" \o x.ctx
         [] x.kind = "fixed" -> x.f.name \o "@" \o x.ctx
+        [] x.kind = "xmod" -> "xmod:" \o x.site \o "@" \o x.ctx
         [] x.kind = "op" -> "op:" \o x.l \o x.op \o x.r \o "@" \o x.ctx
 EmitCase == PrintT("CASE " \o ToJson([id |-> Id, kind |-> x.kind, ctx |-> x.ctx, fault_file |-> IF x.ctx = "lib" THEN "lib" ELSE "main",
                                        bad |-> Files(TRUE), good |-> Files(FALSE)]))
